@@ -14,12 +14,21 @@ EXTENDS AckTracker, TraceBase
 VARIABLE s
 MaxAckDelayUs == 25000
 Sp0 == [recv |-> {}, seen |-> -1, owed |-> {}]
-Ep0 == [i |-> Sp0, h |-> Sp0, a |-> Sp0, closing |-> FALSE]
+Ep0 == [i |-> Sp0, h |-> Sp0, a |-> Sp0, closing |-> FALSE, asked |-> -1]
 S0 == [c |-> Ep0, s |-> Ep0]
 
 AckSet(acks, sp) == UNION {x[2] .. x[3] : x \in {y \in ToSet(acks) : y[1] = sp}}
 
-StepE(x, e) ==
+\* "provided the caller fires the timer when asked": a call that comes later than the deadline the endpoint
+\* had named voids the obligations that existed before it
+Slack == 5
+Late(x, t) == x.asked # -1 /\ t > x.asked + Slack
+Void(x, t) == IF Late(x, t)
+              THEN [x EXCEPT !.i.owed = {o \in @ : o[2] >= t}, !.h.owed = {o \in @ : o[2] >= t},
+                             !.a.owed = {o \in @ : o[2] >= t}]
+              ELSE x
+StepE(x0, e) ==
+  LET x == IF e.ev \in {"arr", "tx"} THEN Void(x0, e.t) ELSE x0 IN
   CASE e.ev = "arr" ->
          LET sp == x[e.space] IN
          [x EXCEPT ![e.space] =
@@ -31,12 +40,13 @@ StepE(x, e) ==
          LET upd(k) == [x[k] EXCEPT !.owed = IF e.closing THEN {}
                                              ELSE {o \in @ : ~Covered(o[1], AckSet(e.acks, k))}] IN
          [x EXCEPT !.i = upd("i"), !.h = upd("h"), !.a = upd("a"), !.closing = e.closing]
+    [] e.ev = "gt" -> [x EXCEPT !.asked = e.value]
     [] OTHER -> x
 StepS(st, e) == IF e.ev = "init" THEN S0 ELSE [st EXCEPT ![e.ep] = StepE(st[e.ep], e)]
 
 Cl(st, e) ==
   IF e.ev = "init" THEN << >> ELSE
-  LET x == st[e.ep] IN
+  LET x == IF e.ev = "tx" THEN Void(st[e.ep], e.t) ELSE st[e.ep] IN
   CASE e.ev = "tx" ->
          << <<"ack-lists-only-received-packets",
                \A k \in {"i", "h", "a"} : SoundAck(AckSet(e.acks, k), x[k].recv)>>,
